@@ -634,7 +634,7 @@ structure BindIn where
 structure TensorIn where
   name  : String
   ranks : List String
-  shape : List Nat           -- authoritative
+  shape : Option (List Nat)  -- the declared (authoritative) shape; `none`: only an estimated one
   deriving Repr
 
 structure FmtIn where
@@ -709,9 +709,9 @@ def rowsOk (n : Nat) (rows : List Row) : Bool :=
 def shapeAt (c : CaseIn) (t r : String) : Option Nat :=
   match tensorOf c t with
   | none => none
-  | some ti => match idxOf? ti.ranks r with
-    | none => none
-    | some j => ti.shape[j]?
+  | some ti => match ti.shape, idxOf? ti.ranks r with
+    | some sh, some j => sh[j]?
+    | _, _ => none
 
 /-- The configuration of every binding in `bind_info` order, or the reason why the case is
     outside the modelled domain. -/
@@ -735,7 +735,9 @@ def configure (c : CaseIn) : Except String (Nat × List BindCfg) := do
     let n := p + 1
     let ti ← match tensorOf c b.tensor with | some t => pure t | none => throw "unknown tensor"
     if !ti.ranks.contains b.rank then throw "binding rank not in tensor"
-    if ti.shape.length ≠ ti.ranks.length then throw "shape arity"
+    match ti.shape with
+    | some sh => if sh.length ≠ ti.ranks.length then throw "shape arity"
+    | none => pure ()
     let rd := c.traces.find? (fun t => t.key = b.key ∧ !t.isWrite)
     let wr := c.traces.find? (fun t => t.key = b.key ∧ t.isWrite)
     let anyT ← match rd, wr with
@@ -766,8 +768,11 @@ def configure (c : CaseIn) : Except String (Nat × List BindCfg) := do
           | some q => if q + 1 ≤ n then pure (q + 1) else throw "evict-on below the bound rank")
     let pin := wr.isSome && (c.cache || b.rank ≠ b.evictOn)
     -- `shapes[i]` (traffic.py:471-480): `tensor, rank = info[:2]`, the binding's own rank
+    -- `shape = ...getShape(authoritative=True); assert shape is not None`
     let shape ← (if pin then match shapeAt c b.tensor b.rank with
-                             | some s => pure (some s) | none => throw "shape" else pure none)
+                             | some s => pure (some s)
+                             | none => throw (if ti.shape.isNone then "REJECT:AssertionError" else "shape")
+                 else pure none)
     pure ({ tensor := b.tensor, n, evictEnd, epl, maskN, maskM, pin, shape
             rows := combine rrows wrows, hasRead := rd.isSome, hasWrite := wr.isSome } : BindCfg))
   pure (L, cfgs)
